@@ -89,6 +89,7 @@ def _on_error_default(self, spec, info, ob):
 
 Family.on_error = _on_error_default
 Family.worker_extra = lambda self, spec, info, ob: None
+Family.labels = lambda self, o: []        # extra input-distribution labels of one worker result (→ res.count)
 
 
 def run_family(fam: Family, res: common.Result, build, rule, trusted, assume, explanation, known_fn=None):
@@ -114,6 +115,8 @@ def run_family(fam: Family, res: common.Result, build, rule, trusted, assume, ex
         res.count("header:" + str(o["info"].get("header_mode")))
         for lab in o["info"].get("labels") or []:      # input classes a family's generator names itself
             res.count(str(lab))
+        for lab in fam.labels(o):
+            res.count(lab)
         if o["status"] == "ok":
             res.count(f"pages:{min(len(o['pages']), 9)}")
         fails = list(o.get("fails") or [])
